@@ -507,7 +507,7 @@ impl<'tcx> Cx<'tcx> {
         jobj(kv)
     }
 
-    fn body(&mut self, did: DefId, body: &Body<'tcx>) -> String {
+    fn body(&mut self, did: DefId, body: &Body<'tcx>, promoted: Option<u32>) -> String {
         let tcx = self.tcx;
         let env = TypingEnv::post_analysis(tcx, did);
         let mut locals = vec![];
@@ -697,8 +697,13 @@ impl<'tcx> Cx<'tcx> {
         }
 
         let kind = tcx.def_kind(did);
+        let nm = match promoted {
+            Some(i) => format!("{}::promoted[{}]", self.path(did), i),
+            None => self.path(did),
+        };
         let mut kv: Vec<(&str, String)> = vec![
-            ("name", jstr(&self.path(did))),
+            ("name", jstr(&nm)),
+            ("promoted", jbool(promoted.is_some())),
             ("def_kind", jstr(&format!("{:?}", kind))),
             ("arg_count", jnum(body.arg_count)),
             ("span", self.span(body.span)),
@@ -843,8 +848,11 @@ fn dump<'tcx>(tcx: TyCtxt<'tcx>, out_path: &str) {
             continue;
         }
         let body = tcx.optimized_mir(did);
-        bodies.push(cx.body(did, body));
+        bodies.push(cx.body(did, body, None));
         nbodies += 1;
+        for (pi, pb) in tcx.promoted_mir(did).iter_enumerated() {
+            bodies.push(cx.body(did, pb, Some(pi.as_u32())));
+        }
     }
     // items / census
     let mut items = vec![];
